@@ -71,7 +71,12 @@ func vh_http_parse() {
 	}
 	path := "/" + vhToken("path", vnChoice("pathlen", 3))
 	hk := vhToken("hkey", 1+vnChoice("hklen", 2))
-	hv := vhToken("hval", 1+vnChoice("hvlen", 2))
+	// header values may contain ':' and ' ' (e.g. "status: done", URLs, times); no CR/LF
+	hv := vnString("hval", 1+vnChoice("hvlen", 4))
+	for i := 0; i < len(hv); i++ {
+		vassume(hv[i] >= 0x20 && hv[i] < 0x7f)
+	}
+	vassume(hv[0] != ' ')
 	hasHeader := vnBool("hasheader")
 	// the body is arbitrary bytes (it may contain CR, LF, ':' and ' ')
 	body := vnString("body", vnChoice("bodylen", 5))
